@@ -272,7 +272,15 @@ fn run<T: Flt>(src: &mut Src, obs: &mut Obs) -> Result<(), Fail> {
         }
         for l in 0..g.lanes {
             let z = [g.z(i, j, l), g.z(i, j + 1, l), g.z(i + 1, j, l), g.z(i + 1, j + 1, l)];
-            let m = z.iter().fold(0f64, |a, v| a.max(v.abs()));
+            let mut m = z.iter().fold(0f64, |a, v| a.max(v.abs()));
+            // on a grid line the neighbouring cell surrounds the query as well: either may be used
+            let (ilo, ihi) = (if qx == g.x[i] && i > 0 { i - 1 } else { i }, if qx == g.x[i + 1] && i + 2 < g.nx { i + 2 } else { i + 1 });
+            let (jlo, jhi) = (if qy == g.y[j] && j > 0 { j - 1 } else { j }, if qy == g.y[j + 1] && j + 2 < g.ny { j + 2 } else { j + 1 });
+            for a in ilo..=ihi {
+                for b in jlo..=jhi {
+                    m = m.max(g.z(a, b, l).abs());
+                }
+            }
             let tol = ULPS2 * 2.0 * T::U * m;
             let want = exact_bilinear((g.x[i], g.x[i + 1]), (g.y[j], g.y[j + 1]), z, (qx, qy));
             let got = res[k][l].f();
